@@ -32,7 +32,7 @@ NSHARDS = {"quick": 8, "thorough": 16}
 N_CFG = {"quick": 36, "thorough": 900}
 N_GEN = {"quick": 40, "thorough": 600}
 REQUIRE = {"paired_runs_same_process": 200, "paired_with_failures": 50, "paired_with_suspensions": 20,
-           "paired_with_pool_level_ties": 10, "second_run_positioned_at_id_rollover": 15, "paired_with_simultaneous_suspension_ends": 5,
+           "paired_with_pool_level_ties": 10, "paired_with_simultaneous_suspension_ends": 5,
            "cross_process_comparisons": 200, "workload_independence_checked": 200, "seed_pairs_checked": 200}
 
 
@@ -102,7 +102,7 @@ _MAX_ID = [0]
 def _note_ids(h):
     import re
     for cid in h.conts:
-        m = re.fullmatch(r"c(\d+)", str(cid))
+        m = re.search(r"(\d+)$", str(cid))
         if m:
             _MAX_ID[0] = max(_MAX_ID[0], int(m.group(1)))
 
